@@ -163,7 +163,11 @@ class Gen:
         return getattr(self, "n_" + k)(depth, ctx)
 
     def block(self, depth, ctx, lo=1, hi=3):
-        return [self.node(depth, ctx) for _ in range(self.rng.randint(lo, hi))]
+        b = [self.node(depth, ctx) for _ in range(self.rng.randint(lo, hi))]
+        if all(n[0] == "rcomment" for n in b):
+            # a block holding nothing but ruby-style comments is an empty Go block (known finding F35)
+            b.append(self.n_text(depth, ctx))
+        return b
 
     def n_children(self, depth, ctx):
         return ("children",)
@@ -235,7 +239,7 @@ class Gen:
         self.nvars += 1
         v = "x%d" % self.nvars
         self.loopvars.append(v)
-        body = self.block(depth + 1, ctx, 1, 2)
+        body = [("stmt", "_ = " + v)] + self.block(depth + 1, ctx, 1, 2)
         self.loopvars.pop()
         return ("for", i, v, body, r.choice(["short", "short", "braces"]))
 
@@ -329,8 +333,13 @@ class Gen:
                     content[1][0] = ("s", "t " + p0[1])
             elif c < 0.8:
                 content = self.n_script(depth, ctx)
-            elif c < 0.9:
+            elif c < 0.9 and not e["marks"]:
+                # (after a whitespace-removal mark only `=`, `/` or text may follow)
                 content = self.n_uscript(depth, ctx)
+            elif c < 0.9:
+                content = self.n_script(depth, ctx)
+            elif e["marks"]:
+                content = ("text", [("s", "marked")])
             else:
                 content = ("utext", self.pieces(first_static=False))
                 p0 = content[1][0]
